@@ -52,6 +52,34 @@ CHECKS = {
             "each history is replayed on real enums (one hand-written, three emitted by the real generator) and the full projection (type, "
             "identity, name, value, int, ==, hash, containment, member tables of all enums) is checked after every construction",
             "only CPython 3.11/3.12 are installed", "DESIGN.md 6 C14"),
+    "C04": ("TLA+ composition EoWriter;EoReader with the matching read and expected value per write; TLC exhaustive over short write "
+            "histories; traces observed on the real writer/reader pair judged by TLC with the read-back predicates",
+            "EoWire.tla derives, for every accepted write, the matching read, the expected value (cp1252 image; sanitised image) and the "
+            "lossy exclusions as spec predicates; TLC checks ReadBackOK/ConsumedExactly on every history of depth 2 (3) over 98 calls; "
+            "those histories and random ones (arbitrary Unicode incl. C1 controls/astral, ints to 2^40) run on the real classes and TLC "
+            "evaluates the same predicates on the observed values",
+            "TLC; Python's cp1252 codec maps characters to the spec's Char codes in the harness", "DESIGN.md 6 C04"),
+    "C05": ("TLA+ reader state machine (derived break, slices as new readers); TLC exhaustive over short data x call sequences + "
+            "simulation; every behaviour replayed on EoReader and compared step by step by TLC",
+            "EoReader.tla is the documented chunked-reading model; TLC checks InBounds / Independent / DataImmutable / SliceFresh over all "
+            "data <= 4 bytes on {00,01,FE,FF} x all call sequences of depth 2 (3) on every live reader, plus simulated walks; each behaviour "
+            "and 20k (200k) random traces over arbitrary bytes are run on the real class and TLC compares every return value, exception class "
+            "and (position, remaining, mode) of every live reader after every call",
+            "TLC; negative get_bytes lengths not driven (outside the property)", "DESIGN.md 6 C05"),
+    "C06": ("TLA+ composition of writer (sanitising) and chunked reader with read plans; TLC exhaustive over bounded chunk lists x plans; "
+            "observed executions judged by TLC with NoBreak/PrefixCorrect/SurplusZero/NonInterference",
+            "EoChunks.tla: chunks of typed fields, plans = prefix + surplus reads; NonInterference is stated as: what a plan reads in chunk c "
+            "equals what it reads when chunk c is written and read alone; TLC checks the model on all bounded chunk lists and plans; the "
+            "real writer/reader run the same behaviours and random larger ones (8 chunks x 6 fields), in context and alone, and TLC "
+            "evaluates the four predicates on the observations",
+            "TLC; padded strings / raw bytes in chunks excluded as the property's own justification requires", "DESIGN.md 6 C06"),
+    "C09": ("TLA+ writer state machine with outcome; TLC exhaustive over call histories; traces observed on EoWriter judged by TLC with "
+            "Atomic/ExactLength/SanitisedNoFF/ExactImage/RefusedExactlyWhenInvalid",
+            "EoWriter.tla: one action per public call, refusal = ValueError with contents unchanged; TLC checks that the model satisfies the "
+            "C09 predicates at every step of every history of depth 2 (3) over 98 calls (limits, limit+1, 2^31, 253^4+1, strings with "
+            "y-diaeresis/unencodable chars, all length/padded combinations, mode toggles); the same and random histories run on the real "
+            "class and TLC evaluates the predicates on the observed bytes and outcomes",
+            "TLC; negative integers are outside the property", "DESIGN.md 6 C09"),
 }
 
 PLANNED = {}
